@@ -571,7 +571,15 @@ static Janet cfun_sim_restore(int32_t argc, Janet *argv) {
 
 /* run a thunk with the collector forced at every safepoint etc. is done via sim/gc */
 
+static int cur_phase;
+static Janet cfun_sim_phase(int32_t argc, Janet *argv) {
+    (void) argv;
+    janet_fixarity(argc, 0);
+    return janet_wrap_integer(cur_phase);
+}
+
 static const JanetReg sim_cfuns[] = {
+    {"sim/phase", cfun_sim_phase, "(sim/phase) index of the current phase"},
     {"sim/ev", cfun_sim_ev, "(sim/ev kind & args) append an event to the history"},
     {"sim/canon", cfun_sim_canon, "(sim/canon x) canonical serialisation"},
     {"sim/now", cfun_sim_now, "(sim/now) simulated ns"},
@@ -746,7 +754,7 @@ static int run_phase(const char *src, int idx) {
     janet_init();
     JanetTable *env = janet_core_env(NULL);
     janet_cfuns(env, NULL, sim_cfuns);
-    janet_def(env, "sim/phase", janet_wrap_integer(idx), NULL);
+    cur_phase = idx;
     sim_hist("!phase", "%d", idx);
     Janet out;
     int status = janet_dostring(env, src, "plan", &out);
